@@ -1997,6 +1997,22 @@ class subarray : public const_subarray<T, D, ElementPtr, Layout> {
 	constexpr auto home()     && { return this->home_aux_(); }
 	constexpr auto home()      & { return this->home_aux_(); }
 
+	// front/back, reversed and chunked of a mutable view are mutable (the const_subarray base only has the read-only versions)
+	template<class Dummy = void, class BaseView = std::enable_if_t<sizeof(Dummy*) && (D != 0), const_subarray<T, D, ElementPtr, Layout>>> constexpr auto front() const& -> typename BaseView::const_reference { return static_cast<const_subarray<T, D, ElementPtr, Layout> const&>(*this).front(); }
+	template<class Dummy = void, class BaseView = std::enable_if_t<sizeof(Dummy*) && (D != 0), const_subarray<T, D, ElementPtr, Layout>>> constexpr auto back()  const& -> typename BaseView::const_reference { return static_cast<const_subarray<T, D, ElementPtr, Layout> const&>(*this).back(); }
+	constexpr auto front()      & -> decltype(auto) { return *(this->begin()); }
+	constexpr auto back()       & -> decltype(auto) { return *(this->end() - 1); }
+	constexpr auto front()     && -> decltype(auto) { return *(this->begin()); }
+	constexpr auto back()      && -> decltype(auto) { return *(this->end() - 1); }
+
+	template<class Dummy = void, class BaseView = std::enable_if_t<sizeof(Dummy*) && (D != 0), const_subarray<T, D, ElementPtr, Layout>>> constexpr auto reversed() const& -> typename BaseView::basic_const_array { return static_cast<const_subarray<T, D, ElementPtr, Layout> const&>(*this).reversed(); }
+	constexpr auto reversed()      & -> subarray { return const_subarray<T, D, ElementPtr, Layout>::reversed(); }
+	constexpr auto reversed()     && -> subarray { return const_subarray<T, D, ElementPtr, Layout>::reversed(); }
+
+	template<class Size> constexpr auto chunked(Size count) const& -> const_subarray<T, D+1, typename subarray::element_ptr> { return static_cast<const_subarray<T, D, ElementPtr, Layout> const&>(*this).chunked(count); }
+	template<class Size> constexpr auto chunked(Size count)      & -> subarray<T, D+1, typename subarray::element_ptr> { return static_cast<const_subarray<T, D, ElementPtr, Layout> const&>(*this).chunked(count); }
+	template<class Size> constexpr auto chunked(Size count)     && -> subarray<T, D+1, typename subarray::element_ptr> { return static_cast<const_subarray<T, D, ElementPtr, Layout> const&>(*this).chunked(count); }
+
 	// mutable element ranges are a property of (mutable) subarrays; const_subarray only offers read-only ones
 	template<class Dummy = void, std::enable_if_t<sizeof(Dummy*) && (D != 0), int> =0>  // NOLINT(modernize-use-constraints)
 	constexpr auto elements()      & { using base_t = std::conditional_t<sizeof(Dummy*) != 0, const_subarray<T, D, ElementPtr, Layout>, void>; return typename base_t::elements_range(this->base_, this->layout()); }
